@@ -75,18 +75,9 @@ impl C05 {
         unreachable!()
     }
 
-    fn inner_strings(&self) -> u64 {
-        let (sl, al) = if self.tier == Tier::Quick { (2, 5) } else { (3, 6) };
-        faults::short_string_count(sl) + faults::alphabet_string_count(al)
-    }
-    fn inner_string(&self, i: u64) -> Vec<u8> {
-        let sl = if self.tier == Tier::Quick { 2 } else { 3 };
-        let n = faults::short_string_count(sl);
-        if i < n {
-            faults::short_string(i)
-        } else {
-            faults::alphabet_string(i - n)
-        }
+    /// string set of a block: the frame reader and the direct parser entries get the heavy set in thorough
+    fn strs(&self, block: &str) -> faults::Strs {
+        faults::Strs::for_tier(self.tier, block == "frame" || block == "direct")
     }
 
     fn decode(&self, idx: u64) -> (String, usize, Vec<Deviation>, Option<Vec<u8>>) {
@@ -119,24 +110,27 @@ impl C05 {
                 (b.into(), 0, vec![fs.reduced_get(a), fs.reduced_get(c)], None)
             }
             "inner" => {
-                let n = self.inner_strings();
+                let st = self.strs("inner");
+                let n = st.count();
                 let m = (i / n) as usize;
-                let s = self.inner_string(i % n);
+                let s = st.get(i % n);
                 let name = self.inner_msgs[m].clone();
                 let kind = if name == "cc" { DevKind::Replace(vref::framing::tpkt(&s)) } else { DevKind::ReplaceInner(s) };
                 (b.into(), 0, vec![Deviation { msg: name, kind }], None)
             }
             "frame" => {
                 // the whole server message replaced by raw (unframed) bytes: the TPKT/fast-path reader is the parser entry
-                let n = self.inner_strings();
+                let st = self.strs("frame");
+                let n = st.count();
                 let m = (i / n) as usize;
-                let s = self.inner_string(i % n);
+                let s = st.get(i % n);
                 (b.into(), 0, vec![Deviation { msg: self.inner_msgs[m].clone(), kind: DevKind::Replace(s) }], None)
             }
             "direct" => {
-                let n = self.inner_strings();
+                let st = self.strs("direct");
+                let n = st.count();
                 let e = (i / n) as usize;
-                (format!("direct:{}", DIRECT[e]), e, vec![], Some(self.inner_string(i % n)))
+                (format!("direct:{}", DIRECT[e]), e, vec![], Some(st.get(i % n)))
             }
             _ => unreachable!(),
         }
@@ -174,13 +168,12 @@ impl Prop for C05 {
             self.conn_space.push(FaultSpace::new(msgs, tier));
         }
         self.inner_msgs = vec!["cc".into(), "connect_response".into(), "attach_confirm".into(), "join_confirm".into(), "join_confirm_2".into(), "licence".into()];
-        let n_inner = self.inner_strings();
         let mut blocks = vec![
             ("cc", self.cc_space.iter().map(|f| f.total()).sum()),
             ("conn", self.conn_space.iter().map(|f| f.total()).sum()),
-            ("inner", self.inner_msgs.len() as u64 * n_inner),
-            ("frame", self.inner_msgs.len() as u64 * n_inner),
-            ("direct", DIRECT.len() as u64 * n_inner),
+            ("inner", self.inner_msgs.len() as u64 * self.strs("inner").count()),
+            ("frame", self.inner_msgs.len() as u64 * self.strs("frame").count()),
+            ("direct", DIRECT.len() as u64 * self.strs("direct").count()),
         ];
         if tier == Tier::Thorough {
             let n = self.conn_space[0].reduced_count();
@@ -197,7 +190,7 @@ impl Prop for C05 {
         json!({"idx": idx, "block": b, "config": cfg, "deviations": devs, "direct_input_hex": direct.map(|d| vref::bytes::hex(&d))})
     }
     fn rule(&self) -> String {
-        "cases = an honest setup conversation with <=1 deviation (<=2 in thorough). [cc] x224::Client::connect for offered masks {3,1}: the connection confirm with every byte offset x value set (12 boundary values + honest+-1 in quick, all 256 in thorough), every offset as 16/32-bit field in both byte orders x boundary set, every truncation, extensions {+1,+2,+1500}; [conn] the same over connect-response, attach-confirm, both join-confirms and the licence PDU for two server configurations, executed through the real mcs::Client::connect + sec::connect; [inner] each message's payload replaced by every byte string of length <=2 (<=3) and every string of length 3..5 (..6) over {00,01,02,03,04,7F,80,FF}; [frame] each whole message replaced by the same strings unframed (the TPKT / fast-path frame reader is the entry); [direct] the same strings fed to gcc::read_conference_create_response, license::client_connect and the per::read_* primitives; [pairs, thorough] all pairs of {byte:=00, byte:=FF, truncate} over all offsets of all five messages. Non-trivial: the deviation changed bytes the client consumed (the outcome differs from the honest one or the mutated message was reached).".into()
+        "cases = an honest setup conversation with <=1 deviation (<=2 in thorough). [cc] x224::Client::connect for offered masks {3,1}: the connection confirm with every byte offset x value set (12 boundary values + honest+-1 in quick, all 256 in thorough), every offset as 16/32-bit field in both byte orders x boundary set, every truncation, extensions {+1,+2,+1500}; [conn] the same over connect-response, attach-confirm, both join-confirms and the licence PDU for two server configurations, executed through the real mcs::Client::connect + sec::connect; [inner] each message's payload replaced by every byte string of length <=2 and every string of length 3..5 (..6 in thorough) over {00,01,02,03,04,7F,80,FF}; [frame] each whole message replaced by every string of length <=2 (<=3 in thorough) plus the alphabet strings, unframed (the TPKT / fast-path frame reader is the entry); [direct] the same strings fed to gcc::read_conference_create_response, license::client_connect and the per::read_* primitives; [pairs, thorough] all pairs of {byte:=00, byte:=FF, truncate} over all offsets of all five messages. Non-trivial: the deviation changed bytes the client consumed (the outcome differs from the honest one or the mutated message was reached).".into()
     }
     fn assumptions(&self) -> Vec<String> {
         vec![
